@@ -42,6 +42,7 @@ type srvCfg struct {
 	dns, ntp       []string
 	domain         string
 	clientDNS      map[string][]string // per static client overrides
+	overrides      map[string]*pb.ClientConfig // entries without an address: settings only
 }
 
 func (c srvCfg) proto() *pb.ServerConfig {
@@ -56,6 +57,11 @@ func (c srvCfg) proto() *pb.ServerConfig {
 			cc.Dns = d
 		}
 		p.Client[macStr(s[0].([]byte))] = cc
+	}
+	for k, v := range c.overrides {
+		if _, dup := p.Client[k]; !dup {
+			p.Client[k] = v
+		}
 	}
 	return p
 }
@@ -96,6 +102,40 @@ func (g *srvGen) variant(r2 *rand.Rand) int {
 		a, b := g.clients[len(g.clients)-1], g.clients[len(g.clients)-2]
 		a.cid = append(append([]byte{}, pre...), 1, byte(r2.Intn(256)))
 		b.cid = append(append([]byte{}, pre...), 2)
+	}
+	// a sender whose vendor prefix is in the compiled-in registry (short and long vendor names)
+	if r2.Intn(2) == 0 {
+		reg := registryMACs()
+		for _, c := range g.clients {
+			if !c.static && len(c.mac) == 6 && len(reg) > 0 {
+				m := reg[r2.Intn(len(reg))]
+				if r2.Intn(2) == 0 {
+					m = reg[r2.Intn(4)%len(reg)] // the shortest names
+				}
+				old := c.mac
+				c.mac = append(append([]byte{}, m[:3]...), old[3:]...)
+				if len(c.cid) == 7 && c.cid[0] == 1 {
+					c.cid = append([]byte{1}, c.mac...)
+				}
+				break
+			}
+		}
+	}
+	// per-client settings for clients without a reserved address (they identify themselves by client identifier or not)
+	for _, c := range g.clients {
+		if !c.static && len(c.mac) == 6 && r2.Intn(2) == 0 {
+			if g.cfg.overrides == nil {
+				g.cfg.overrides = map[string]*pb.ClientConfig{}
+			}
+			oc := &pb.ClientConfig{Dns: []string{"9.9.9.9"}}
+			if r2.Intn(2) == 0 {
+				oc.Router = ipStr(g.cfg.netU + 3)
+			}
+			if r2.Intn(2) == 0 {
+				oc.Hostname = "host-" + macStr(c.mac)[12:]
+			}
+			g.cfg.overrides[macStr(c.mac)] = oc
+		}
 	}
 	if r2.Intn(2) == 0 {
 		return 1 + r2.Intn(2)
@@ -464,6 +504,14 @@ func (g *srvGen) next() ([]byte, []arpResp, *simClient, byte) {
 		case 2:
 			arp = append(arp, arpResp{a, []byte{0x02, 0xcc, 0, 0, 0, byte(a)}, time.Duration(610+r.Intn(300)) * time.Millisecond, false})
 		}
+		if g.r2 != nil && g.r2.Intn(15) == 0 { // the server host itself answers for the address (an alias on the same interface)
+			own := arpResp{a, c.selfMAC, time.Duration(1+g.r2.Intn(589)) * time.Millisecond, false}
+			if n := len(arp); n > 0 && arp[n-1].ip == a {
+				arp[n-1] = own // one responder per address
+			} else {
+				arp = append(arp, own)
+			}
+		}
 	}
 	bc := uint32(0xffffffff)
 	var m wmsg
@@ -573,6 +621,36 @@ func (g *srvGen) next() ([]byte, []arpResp, *simClient, byte) {
 	proto, dport := byte(17), uint16(67)
 	if r.Intn(40) == 0 {
 		proto = 6 // not UDP: must be ignored
+	}
+	if g.r2 != nil && g.r2.Intn(2) == 0 {
+		// wishes and information a client may add, none of which changes what the server has to do: a lease-time wish
+		// (short, long, infinite), maximum message size, parameter list, host name, vendor class, relay information, ...
+		for i := 0; i < 1+g.r2.Intn(3); i++ {
+			code := []byte{51, 51, 57, 55, 12, 60, 81, 82, 58, 59, 1, 3, 6, 15, 28, 26, 43, 77}[g.r2.Intn(18)]
+			var data []byte
+			switch code {
+			case 51, 58, 59:
+				data = u32b([]uint32{1, 10, 59, 60, 61, 3600, 0x7fffffff, 0xffffffff, uint32(g.r2.Intn(200))}[g.r2.Intn(9)])
+				if g.r2.Intn(6) == 0 {
+					data = data[:g.r2.Intn(4)]
+				}
+			case 57:
+				data = []byte{byte(g.r2.Intn(6)), byte(g.r2.Intn(256))}
+			default:
+				data = randBytes(g.r2, g.r2.Intn(9))
+			}
+			m.opts = append(m.opts, wopt{code, data})
+		}
+		// header fields a server of this kind has no use for
+		if g.r2.Intn(3) == 0 {
+			m.secs, m.hops = uint16(g.r2.Uint32()), byte(g.r2.Intn(4))
+			if g.r2.Intn(2) == 0 {
+				m.giaddr = c.netU + 9
+			}
+			if g.r2.Intn(2) == 0 {
+				m.siaddr, m.yiaddr = g.someAddr(), g.someAddr()
+			}
+		}
 	}
 	return udpip(src, dst, 68, dport, proto, 64, m.bytes()), arp, cl, kind
 }
